@@ -264,7 +264,7 @@ class Explorer:
             return 'arg%d%s' % (v[1], ps(v[2]))
         if k == 'call':
             fr = self.frames[v[1]]
-            return 'ret(%s@%s)%s' % (callee(fr.body.term(v[2])).split('::')[-1], fr.body.loc(v[2]), ps(v[3]))
+            return 'ret(%s)%s' % (callee(fr.body.term(v[2])).split('::')[-1], ps(v[3]))
         if k == 'agg':
             fr = self.frames[v[1]]
             rv = fr.body.blocks[v[2]]['s'][v[3]]['r']
@@ -272,7 +272,7 @@ class Explorer:
         if k == 'closure':
             return 'closure(%s)' % v[1]
         if k == 'summary':
-            return '%s(%s)%s' % (v[1], self.frames[v[2]].body.loc(v[3]), ps(v[4]))
+            return '%s(in %s)%s' % (v[1], self.frames[v[2]].body.id.split('::')[-1], ps(v[4]))
         if k == 'fmt':
             fr = self.frames[v[1]]
             f = core.fmt_at(fr.body, v[2])
